@@ -24,7 +24,7 @@ func TestC14(t *testing.T) {
 	var exps []exp
 	full := []string{"new", "start", "client", "dispense", "set:5", "get", "callback", "revcallback", "ping", "big:5000000", "print:x", "kill"}
 	add := func(c Cell, e exp) { cells = append(cells, c); exps = append(exps, e) }
-	allowedSets := [][]string{nil, {"netrpc"}, {"grpc"}, {"netrpc", "grpc"}}
+	allowedSets := [][]string{nil, {"netrpc"}, {"grpc"}, {"netrpc", "grpc"}, {}} // ({}: an explicit empty list allows nothing; only nil means the net/rpc default)
 	launches := []string{"cmd", "runner"}
 	if tier() == "quick" {
 		launches = []string{"cmd"}
